@@ -842,6 +842,19 @@ func (s *Sim) tracef(format string, a ...any) {
 	s.mu.Unlock()
 }
 
+// WaitNoLive waits (at most timeout of simulated time) until no goroutine spawned by kit code
+// whose name contains filter is alive. It reports whether that happened.
+func (s *Sim) WaitNoLive(filter string, timeout time.Duration) bool {
+	return s.WaitUntil("nolive", timeout, func() bool {
+		for _, g := range s.all {
+			if !g.Client && g.state != gDone && strings.Contains(g.Name, filter) {
+				return false
+			}
+		}
+		return true
+	})
+}
+
 // Live returns the names of goroutines spawned by kit code (not harness clients) that have
 // not exited, optionally filtered by a substring of their spawn path.
 func (s *Sim) Live(filter string) []string {
@@ -989,6 +1002,14 @@ func Execute(t *testing.T, src Source, configure func(src Source) Config, body f
 	s.mu.Unlock()
 	res.Tape = src.Tape()
 	return
+}
+
+// DisableDelays turns off the scheduler's injected delays for the rest of this run (used by
+// harness modes that compare against an exact timeline).
+func (s *Sim) DisableDelays() {
+	s.mu.Lock()
+	s.cfg.TimeDen = 0
+	s.mu.Unlock()
 }
 
 // StarveOne names the goroutine that strategy 2 only runs when nothing else can.
